@@ -918,9 +918,140 @@ struct int_array
   int *end() { return data + 16; }
 };
 
+// A user-supplied bidirectional iterator whose ++ / -- throw (before moving) when an armed countdown reaches zero.
+// "A cyclic iterator ... always stays inside its boundary": also when a step of the underlying iterator fails, the
+// cyclic iterator that is left behind denotes an element of [first, second) and keeps cycling from there.
+struct step_fault
+{
+};
+long g_step_countdown = -1;
+struct faulty_it
+{
+  using iterator_category = std::bidirectional_iterator_tag;
+  using value_type = int;
+  using difference_type = std::ptrdiff_t;
+  using pointer = int *;
+  using reference = int &;
+  int *p = nullptr;
+  static void tick()
+  {
+    if (g_step_countdown == 0)
+    {
+      g_step_countdown = -1;
+      throw step_fault{};
+    }
+    if (g_step_countdown > 0)
+      --g_step_countdown;
+  }
+  int &operator*() const { return *p; }
+  int *operator->() const { return p; }
+  faulty_it &operator++()
+  {
+    tick();
+    ++p;
+    return *this;
+  }
+  faulty_it operator++(int)
+  {
+    faulty_it r(*this);
+    ++*this;
+    return r;
+  }
+  faulty_it &operator--()
+  {
+    tick();
+    --p;
+    return *this;
+  }
+  faulty_it operator--(int)
+  {
+    faulty_it r(*this);
+    --*this;
+    return r;
+  }
+  friend bool operator==(faulty_it const &a, faulty_it const &b) { return a.p == b.p; }
+  friend bool operator!=(faulty_it const &a, faulty_it const &b) { return a.p != b.p; }
+};
+
+void cyclic_faulty_steps()
+{
+  using cyc = fcppt::cyclic_iterator<faulty_it>;
+  std::string const e = "cyclic_iterator<throwing-iterator>";
+  if (!vf::entry_enabled(e))
+    return;
+  vf::set_entry(e);
+  int storage[12];
+  for (int i = 0; i < 12; ++i)
+    storage[i] = 100 + i;
+  for (unsigned len = 1; len <= 4; ++len)
+    for (unsigned pad_lo = 0; pad_lo <= 2; ++pad_lo)
+      for (unsigned start = 0; start < len; ++start)
+      {
+        std::uint64_t const my_index = cyclic_case_counter++;
+        if (!vf::mine(my_index))
+          continue;
+        if (!vf::begin_case("len=%u pad_lo=%u start=%u: every direction pattern of 5 steps, the underlying step throws at every point", len, pad_lo, start))
+          continue;
+        vf::sample_case(1);
+        vf::note_distinct(vf::hash_mix(vf::hash_str(e), (len * 16 + pad_lo) * 16 + start));
+        faulty_it const first{storage + pad_lo}, second{storage + pad_lo + len};
+        for (unsigned pattern = 0; pattern < 32; ++pattern)
+          for (long fault = 0; fault < 8; ++fault)
+          {
+            vf::operands(pattern, fault, start);
+            vf::add_evals(1);
+            cyc a(faulty_it{storage + pad_lo + start}, typename cyc::boundary{first, second});
+            long model = static_cast<long>(start);
+            g_step_countdown = fault;
+            bool faulted = false;
+            for (unsigned k = 0; k < 5; ++k)
+            {
+              bool const fwd = ((pattern >> k) & 1U) != 0;
+              bool thrown = false;
+              try
+              {
+                if (fwd)
+                  ++a;
+                else
+                  --a;
+              }
+              catch (step_fault const &)
+              {
+                thrown = true;
+                faulted = true;
+                VF_COUNT("cyclic/underlying-step-threw");
+              }
+              long const p = static_cast<long>(a.get().p - storage) - static_cast<long>(pad_lo);
+              if (p < 0 || p >= static_cast<long>(len))
+              {
+                vf::violation(e + (thrown ? "/left-boundary-after-failed-step" : "/left-boundary"), "mismatch",
+                              std::string(fwd ? "++" : "--") + " as step " + std::to_string(k) + ": position " + std::to_string(p) + " not in [0," + std::to_string(len) + ")");
+                break;
+              }
+              if (thrown)
+                model = p; // where a failed step leaves the iterator (inside the boundary) is not prescribed
+              else
+              {
+                model = floor_mod(model + (fwd ? 1 : -1), static_cast<long>(len));
+                if (p != model)
+                {
+                  vf::violation(e + "/wrong-position", "mismatch", "step " + std::to_string(k) + ": position " + std::to_string(p) + " want " + std::to_string(model));
+                  break;
+                }
+              }
+              if (*a != 100 + static_cast<int>(pad_lo) + static_cast<int>(p))
+                vf::violation(e + "/dereference", "mismatch", "");
+            }
+            g_step_countdown = -1;
+            (void)faulted;
+          }
+      }
+}
+
 #if VF_IN_SLICE(2)
 void cyclic_all()
 {
+  cyclic_faulty_steps();
   for (unsigned len = 1; len <= 6; ++len)
     for (unsigned pads = 0; pads < 3; ++pads)
     {
